@@ -57,6 +57,7 @@ type Oracles struct {
 
 	ackedDeliveries map[delivKey]int
 	crashed         bool
+	statusWriteFailed bool
 	bootInc         map[int]bool // incarnations whose first open per source was checked
 	firstOpen       map[string]bool
 	statusHist      []int
@@ -368,6 +369,10 @@ func (o *Oracles) onEvent(w *World, e *Event) {
 			o.teardowns[e.Ent]++
 		}
 	case "DB_SET", "TX_COMMIT":
+		if e.Kind == "DB_SET" && strings.HasPrefix(e.Ent, "pipeline:instance:") {
+			// a failed status write leaves the stored status behind reality (narrow relaxation)
+			o.statusWriteFailed = !e.OK
+		}
 		if e.OK {
 			o.onDurableChange(w, e)
 		}
@@ -543,12 +548,35 @@ func (o *Oracles) finalChecks(w *World) {
 	// C11 liveness: the run was abandoned because simulated time ran out while nothing
 	// was parked at any seam (every plugin and store call had been served, no stall
 	// fault) and the pipeline is still reported as running: the run can never end.
-	if !w.finished && w.stallCount() == 0 && w.worldParked() == 0 && w.capReason == "time" {
-		if st, _, ok := w.db.durableStatus(PipelineID); ok && (st == 1 || st == 5) && w.inc == w.bootedInc {
-			w.violate("C11", "run-never-ends", fmt.Sprintf("pipeline is still %s after %d ms of simulated idleness with every plugin and store call served; no node is waiting for the outside world", statusName(st), w.now()))
+	idleMs := w.now() - w.now0()
+	if !w.finished && w.stallCount() == 0 && w.worldParked() == 0 && w.capReason == "time" && w.bootOK[w.inc] && idleMs > 30*60*1000 {
+		st, _, ok := w.db.durableStatus(PipelineID)
+		open := o.openSessions(w)
+		switch {
+		case ok && st == 1 && len(open) > 0 && !o.statusWriteFailed:
+			w.violate("C11", "run-never-ends", fmt.Sprintf("pipeline is still running with open plugin sessions %v after %d ms of simulated idleness; every plugin and store call has been served and no node is waiting for the outside world", open, idleMs))
+		case ok && st == 5 && !o.statusWriteFailed:
+			w.violate("C10", "recovery-never-resumes", fmt.Sprintf("pipeline is still recovering after %d ms of simulated idleness (max back-off %d ms); every plugin and store call has been served", idleMs, w.cfg.Recovery.MaxDelayMs))
 		}
 	}
 	if w.cfg.Healthy && !w.finished {
 		w.violate("C06", "stop-hang", fmt.Sprintf("healthy run did not complete: steps=%d sim=%dms notes=%v", w.step, w.now(), w.notes))
 	}
+}
+
+// openSessions lists plugin sessions of the live incarnation that were opened and not torn down.
+func (o *Oracles) openSessions(w *World) []string {
+	var out []string
+	for id, sys := range w.srcs {
+		if sys.sess != nil && !sys.sess.closed && sys.sess.inc == w.inc {
+			out = append(out, id)
+		}
+	}
+	for id, sys := range w.dsts {
+		if sys.sess != nil && !sys.sess.closed && sys.sess.inc == w.inc {
+			out = append(out, id)
+		}
+	}
+	sort.Strings(out)
+	return out
 }
